@@ -77,6 +77,17 @@ func (LoopRef) Type() types.Type              { return types.Typ[types.Invalid] 
 func (LoopRef) Parent() *ssa.Function         { return nil }
 func (LoopRef) Referrers() *[]ssa.Instruction { return nil }
 func (LoopRef) Pos() token.Pos                { return token.NoPos }
+
+// ConstRef is handed to a Renamer in place of a value to ask how an integer literal inside a
+// symbolic expression is to be rendered (renamers without a literal policy return "").
+type ConstRef struct{ Value *big.Int }
+
+func (ConstRef) Name() string                       { return "" }
+func (ConstRef) String() string                     { return "" }
+func (ConstRef) Type() types.Type                   { return types.Typ[types.Invalid] }
+func (ConstRef) Parent() *ssa.Function              { return nil }
+func (ConstRef) Referrers() *[]ssa.Instruction      { return nil }
+func (ConstRef) Pos() token.Pos                     { return token.NoPos }
 func (s *SCEVAddRec) Name() string                  { return "scev_addrec" }
 func (s *SCEVAddRec) Type() types.Type              { return types.Typ[types.Int] }
 func (s *SCEVAddRec) Parent() *ssa.Function         { return nil }
@@ -88,14 +99,23 @@ type SCEVConstant struct{ Value *big.Int }
 func (s *SCEVConstant) EvaluateAt(k *big.Int, cache map[SCEV]*big.Int) *big.Int {
 	return new(big.Int).Set(s.Value)
 }
-func (s *SCEVConstant) IsLoopInvariant(loop *Loop) bool    { return true }
-func (s *SCEVConstant) String() string                     { return s.Value.String() }
-func (s *SCEVConstant) StringWithRenamer(r Renamer) string { return s.Value.String() }
-func (s *SCEVConstant) Name() string                       { return s.Value.String() }
-func (s *SCEVConstant) Type() types.Type                   { return types.Typ[types.Int] }
-func (s *SCEVConstant) Parent() *ssa.Function              { return nil }
-func (s *SCEVConstant) Referrers() *[]ssa.Instruction      { return nil }
-func (s *SCEVConstant) Pos() token.Pos                     { return token.NoPos }
+func (s *SCEVConstant) IsLoopInvariant(loop *Loop) bool { return true }
+func (s *SCEVConstant) String() string                  { return s.Value.String() }
+func (s *SCEVConstant) StringWithRenamer(r Renamer) string {
+	// The renamer may stand in for a literal policy: a literal it abstracts elsewhere must not
+	// leak through a trip count or a recurrence.
+	if r != nil {
+		if t := r(ConstRef{Value: s.Value}); t != "" {
+			return t
+		}
+	}
+	return s.Value.String()
+}
+func (s *SCEVConstant) Name() string                  { return s.Value.String() }
+func (s *SCEVConstant) Type() types.Type              { return types.Typ[types.Int] }
+func (s *SCEVConstant) Parent() *ssa.Function         { return nil }
+func (s *SCEVConstant) Referrers() *[]ssa.Instruction { return nil }
+func (s *SCEVConstant) Pos() token.Pos                { return token.NoPos }
 
 type SCEVUnknown struct {
 	Value       ssa.Value
